@@ -266,6 +266,20 @@ func genPipes(c *Ctx, tbl *d.SpsTable) {
 				bp, tg := badPayloads(r, w.Payload, false)
 				j := r.Intn(len(bp))
 				bad, tag = []d.Elem{mk(bp[j], w.Ch == 2)}, tg[j]
+			case x < 52:
+				// garbage that carries a parameter-set NAL type (must not displace validated sets, must be displaced by real ones)
+				var first []byte
+				if b.c.Codec == "h265" {
+					first = []byte{0x40, 0x42, 0x44, 0xc0, 0xc2}
+				} else {
+					first = []byte{0x67, 0x68, 0xc7, 0x27, 0x28, 0xe8}
+				}
+				p := append([]byte{first[r.Intn(len(first))]}, r.Bytes(r.Intn(6))...)
+				bad, tag = []d.Elem{mk(p, false)}, "ps-typed-garbage"
+				if r.Bool() {
+					q := append([]byte{first[r.Intn(len(first))]}, r.Bytes(r.Intn(6))...)
+					bad = append(bad, mk(q, false))
+				}
 			case x < 60:
 				n := r.Intn(4)
 				p := make([]byte, n)
